@@ -183,6 +183,8 @@ def run_replay_file(path, strict=True):
             return r
     if v.get("case", {}).get("kind") == "fuzz-artifact":
         return run_replay_fuzz(path, v)
+    if v.get("case", {}).get("kind") == "miri-corpus":
+        return run_replay_miri(path, v)
     cfg = v.get("config") or "default"
     profile = v.get("profile") or "release"
     if cfg not in CONFIGS:
@@ -314,6 +316,102 @@ def fuzz_phase(prop, seed):
         stats_all.append(st)
         shutil.rmtree(work, ignore_errors=True)
     return viols, stats_all, infra
+
+
+MIRI = {
+    # property -> (cargo features of /verif/miri, processes, cases per process)
+    "C09": [("", 6, 500), ("compact", 4, 400), ("radix,format", 10, 500)],
+    "C10": [("", 6, 500), ("compact", 4, 400), ("radix,format", 10, 500)],
+}
+
+
+def miri_run(features, seed, cases, under_miri):
+    env = dict(ENV)
+    tag = features.replace(",", "_") or "default"
+    if under_miri:
+        env["CARGO_TARGET_DIR"] = os.path.join(BUILD, "t", "miri_" + tag)
+        env["MIRIFLAGS"] = "-Zmiri-disable-isolation"
+        cmd = ["cargo", "+nightly", "miri", "run", "--offline", "-q"]
+    else:
+        env["CARGO_TARGET_DIR"] = os.path.join(BUILD, "t", "mirinative_" + tag)
+        cmd = ["cargo", "run", "--offline", "-q"]
+    env["RUSTFLAGS"] = env.get("RUSTFLAGS", "") + " -Awarnings"
+    if features:
+        cmd += ["--features", features]
+    cmd += ["--", str(seed), str(cases)]
+    try:
+        r = subprocess.run(cmd, cwd=os.path.join(VERIF, "miri"), env=env, stdout=subprocess.PIPE, stderr=subprocess.PIPE, text=True, timeout=3 * 3600)
+    except subprocess.TimeoutExpired:
+        return None, "timeout", ""
+    res = next((l for l in r.stdout.splitlines() if l.startswith("RESULT ")), None)
+    return r.returncode, res, r.stderr
+
+
+def miri_phase(prop, seed):
+    """thorough tier of C09 / C10: the generated corpus of /verif/miri is executed natively and under Miri with
+    the same seeds. Miri reporting undefined behaviour, a panic of a parser or of a writer given the documented
+    buffer size (the corpus asserts both), or a native/Miri result difference is a violation."""
+    viols, stats, infra = [], [], False
+    scale = float(os.environ.get("VERIF_SCALE", "1"))
+    for features, procs, cases in MIRI[prop]:
+        cases = max(20, int(cases * scale))
+        t0 = time.time()
+        # build once (serially) so the parallel runs only execute
+        for um in (False, True):
+            rc, res, err = miri_run(features, 0, 1, um)
+            if rc != 0 or res is None:
+                log(f"miri corpus [{features or 'default'}] {'miri' if um else 'native'} build/run failed:\n{err[-2000:]}")
+                infra = True
+        if infra:
+            continue
+        seeds = [seed * 1000 + i for i in range(procs)]
+        with concurrent.futures.ThreadPoolExecutor(max_workers=procs) as ex:
+            nat = list(ex.map(lambda s: miri_run(features, s, cases, False), seeds))
+            mir = list(ex.map(lambda s: miri_run(features, s, cases, True), seeds))
+        st = {"features": features or "default", "processes": procs, "cases_per_process": cases, "parse_calls": 0, "write_calls": 0, "expected_short_buffer_panics": 0}
+        for s, (nrc, nres, nerr), (mrc, mres, merr) in zip(seeds, nat, mir):
+            case = {"kind": "miri-corpus", "features": features, "seed": s, "cases": cases}
+            if nrc != 0 or nres is None:
+                msg = next((l for l in nerr.splitlines() if "panicked at" in l or "assert" in l), nerr[-300:])
+                viols.append({"subcheck": f"miri-corpus[{features or 'default'}]:native", "message": f"the generated corpus failed natively (seed {s}, {cases} cases): {msg[:800]}", "case": case})
+                continue
+            if mres == "timeout":
+                infra = True
+                continue
+            if mrc != 0 or mres is None:
+                ub = next((l for l in merr.splitlines() if "Undefined Behavior" in l or "error:" in l), merr[-300:])
+                if "unsupported operation" in merr and "Undefined Behavior" not in merr:
+                    log(f"miri: unsupported operation (inconclusive): {ub[:300]}")
+                    infra = True
+                    continue
+                viols.append({"subcheck": f"miri-corpus[{features or 'default'}]:miri", "message": f"Miri stopped the generated corpus (seed {s}, {cases} cases): {ub[:1200]}", "case": case})
+                continue
+            if nres != mres:
+                viols.append({"subcheck": f"miri-corpus[{features or 'default'}]:differential", "message": f"native and Miri executions of the same calls disagree (seed {s}): {nres} vs {mres}", "case": case})
+                continue
+            for kv in mres.split()[2:]:
+                k, v = kv.split("=")
+                if k == "parse":
+                    st["parse_calls"] += int(v)
+                elif k == "write":
+                    st["write_calls"] += int(v)
+                elif k == "panics":
+                    st["expected_short_buffer_panics"] += int(v)
+        st["wall_s"] = round(time.time() - t0, 1)
+        stats.append(st)
+    return viols, stats, infra
+
+
+def run_replay_miri(path, v):
+    case = v.get("case", {})
+    f, s, n = case.get("features", ""), int(case.get("seed", 0)), int(case.get("cases", 100))
+    nrc, nres, nerr = miri_run(f, s, n, False)
+    mrc, mres, merr = miri_run(f, s, n, True)
+    if nrc == 0 and mrc == 0 and nres is not None and nres == mres:
+        return "pass", f"REPLAY-PASS property={v.get('property')} file={path}: {nres}\n"
+    if mres == "timeout":
+        return "infra", "miri replay timed out"
+    return "fail", f"native: rc={nrc} {nres} {nerr[-300:]}\nmiri: rc={mrc} {mres} {merr[-600:]}\nVIOLATION property={v.get('property')} replay={path}\n"
 
 
 def run_replay_fuzz(path, v):
@@ -454,6 +552,13 @@ def check(prop, tier):
                 continue
             violations.append(("default", "release", v))
         evaluations += sum(st.get("executed_units", 0) for st in fuzz_stats)
+    miri_stats = None
+    if tier == "thorough" and prop in MIRI and not os.environ.get("VERIF_NO_MIRI"):
+        mv, miri_stats, minfra = miri_phase(prop, seed)
+        infra = infra or minfra
+        for v in mv:
+            violations.append(("default", "release", v))
+        evaluations += sum(st.get("parse_calls", 0) + st.get("write_calls", 0) for st in miri_stats)
     status = 0
     lines = []
     for cfg, profile, v in violations:
@@ -512,6 +617,7 @@ def check(prop, tier):
             "excluded_known": excluded,
             "regression_replays_run": n_regress,
             "fuzz_campaign": fuzz_stats,
+            "miri_corpus": miri_stats,
             "notes": notes,
         },
         "assumptions": assumptions,
